@@ -28,7 +28,8 @@ static PANICS: Mutex<Vec<String>> = Mutex::new(Vec::new());
 struct Cap;
 impl log::Log for Cap {
     fn enabled(&self, m: &log::Metadata) -> bool { m.level() <= log::Level::Warn && m.target().starts_with("rotonda") }
-    fn log(&self, r: &log::Record) { if self.enabled(r.metadata()) { LOG.lock().unwrap().push(format!("{} {}", r.level(), r.args())); } }
+    // the loader runs on the engine's own thread: what tasks of earlier (live) pipelines still log elsewhere is not its text
+    fn log(&self, r: &log::Record) { if self.enabled(r.metadata()) && (std::thread::current().name() == Some("main") || r.args().to_string().contains("Invalid queue length")) { LOG.lock().unwrap().push(format!("{} {}", r.level(), r.args())); } }
     fn flush(&self) {}
 }
 static CAP: Cap = Cap;
@@ -311,7 +312,7 @@ fn run_sequence(rec: &mut Recorder, rt: &tokio::runtime::Runtime, dir: &std::pat
 
 // ------------------------------------------------------------------ live: what a gate does with an accepted queue length
 
-fn live_queue(rec: &mut Recorder, rt: &tokio::runtime::Runtime, opt: &[u8]) {
+fn live_queue(rec: &mut Recorder, rt: &tokio::runtime::Runtime, opt: &[u8]) -> bool {
     let toml = format!("http_listen = [\"127.0.0.1:0\"]\n[units.bmp-in]\ntype = \"bmp-tcp-in\"\nlisten = \"127.0.0.1:0\"\n[units.rib]\ntype = \"rib\"\nsources = [\"bmp-in\"]\n[targets.out]\ntype = \"file-out\"\nformat = \"csv\"\nfilename = \"{}/live-out.csv\"\nsources = \"rib:{}\"\n", std::env::temp_dir().display(), String::from_utf8_lossy(opt));
     let _g = rt.enter();
     vm::reset_loader();
@@ -343,7 +344,9 @@ fn live_queue(rec: &mut Recorder, rt: &tokio::runtime::Runtime, opt: &[u8]) {
     rec.bump(&format!("live-queue.{}", imp.split(' ').next().unwrap_or("?")));
     manager.terminate();
     rt.block_on(tokio::time::sleep(Duration::from_millis(30)));
+    let panicked = imp.starts_with("panic");
     rec.case(format!("Q|{}", hex(opt)), imp, oracle, true);
+    panicked
 }
 
 // ------------------------------------------------------------------ generator (C13's, plus the disk)
@@ -433,7 +436,7 @@ fn main() {
 
     if let Some(path) = &args.replay {
         for line in verif_harness::replay_cases(path) {
-            if let Some(o) = line.strip_prefix("Q|") { if let Some(o) = unhex(o) { live_queue(&mut rec, &rt, &o); } continue; }
+            if let Some(o) = line.strip_prefix("Q|") { if let Some(o) = unhex(o) { let _ = live_queue(&mut rec, &rt, &o); } continue; }
             let steps: Option<Vec<Step>> = line.split('/').map(parse_step).collect();
             match steps { Some(s) => run_sequence(&mut rec, &rt, &dir, &s, "replay"), None => rec.bump("replay.unparsable-line") }
         }
@@ -470,7 +473,10 @@ fn main() {
         let mut e = a.clone(); e.doc.not_toml = true;
         run_sequence(&mut rec, &rt, &dir, &[a.clone(), b, a.clone(), c, d, e, a], "corpus");
     } } }
-    for o in [&b"0"[..], b"1", b"8", b"abc", b"2305843009213693951", b"2305843009213693952", b"18446744073709551615"] { live_queue(&mut rec, &rt, o); }
+    // the witness of the queue-length counterexample decides that variant
+    let zero_panics = live_queue(&mut rec, &rt, b"0");
+    rec.variant("queue", if zero_panics { "as-written" } else { "repaired" });
+    for o in [&b"1"[..], b"8", b"abc", b"2305843009213693951", b"2305843009213693952", b"18446744073709551615"] { let _ = live_queue(&mut rec, &rt, o); }
 
     let mut g = Gen { rng: Rng::new(args.seed) };
     let n = if args.thorough { 4000 } else { 260 };
@@ -486,7 +492,7 @@ fn main() {
             steps.push(g.dress(d));
         }
         run_sequence(&mut rec, &rt, &dir, &steps, "random");
-        if i % 64 == 63 { live_queue(&mut rec, &rt, &g.option()); }
+        if i % 64 == 63 { let o = g.option(); let _ = live_queue(&mut rec, &rt, &o); }
     }
     rec.finish(&args, t0.elapsed().as_secs_f64());
     let _ = std::fs::remove_dir_all(&dir);
